@@ -58,7 +58,11 @@ def ws(rng):
     return rng.choice(["", "", " ", "  ", "\t", "\n "])
 
 
+SEPS = ["*", "*", "+", "", " ", " * ", "-", " . ", "@", " ** "]
+
+
 def render(rng, e):
+    """returns (string, separators before each input, trailing text) — separators never contain word characters or '='"""
     def ranks(rs):
         parts = []
         for r in rs:
@@ -72,11 +76,23 @@ def render(rng, e):
 
     def tens(t):
         return t[0] + ws(rng) + "[" + ranks(t[1]) + "]"
-    sep = lambda: ws(rng) + rng.choice(["*", "*", "+", "", " ", " x "]) + ws(rng)  # noqa
-    rhs = tens(e["ins"][0])
-    for t in e["ins"][1:]:
-        rhs += sep() + tens(t)
-    return ws(rng) + tens(e["out"]) + ws(rng) + "=" + ws(rng) + rhs + ws(rng)
+    seps = [rng.choice(["", "", " ", "+"])] + [ws(rng) + rng.choice(SEPS) + ws(rng) for _ in e["ins"][1:]]
+    tail = rng.choice(["", "", " ", " ;", "."])
+    rhs = "".join(sp + tens(t) for sp, t in zip(seps, e["ins"]))
+    return ws(rng) + tens(e["out"]) + ws(rng) + "=" + ws(rng) + rhs + tail + ws(rng), seps, tail
+
+
+def coq_einsum(e, seps, tail):
+    def codes(s):
+        return coq_list([ord(c) for c in s if not c.isspace()], coq_nat)
+
+    def entry(r):
+        return f"Short {codes(r[1])}" if r[0] == "s" else f"Keyed {codes(r[1])} {codes(r[2])}"
+
+    def tens(t):
+        return f"({codes(t[0])}, {coq_list([entry(r) for r in t[1]])})"
+    ins = coq_list([f"({codes(sp)}, {tens(t)})" for sp, t in zip(seps, e["ins"])])
+    return f"(mkE {tens(e['out'])} {ins} {codes(tail)})"
 
 
 def expected(e):
@@ -130,8 +146,8 @@ def run(ck):
     strings = []   # (string, expected or None (must be rejected), label)
     for _ in range(ck.n(300, 8000)):
         e = gen_einsum(rng)
-        s = render(rng, e)
-        strings.append((s, expected(e), "valid", e))
+        s, seps, tail = render(rng, e)
+        strings.append((s, expected(e), "valid", (e, seps, tail)))
         if rng.random() < 0.6:
             lab, f = rng.choice(MALFORMED)
             try:
@@ -139,8 +155,9 @@ def run(ck):
             except ValueError:
                 pass
     dist = {}
-    exprs, keys = [], []
-    for s, exp, lab, e in strings:
+    exprs, keys, dom = [], [], []
+    for s, exp, lab, tup in strings:
+        e = tup[0] if tup else None
         dist[lab] = dist.get(lab, 0) + 1
         try:
             p = _parse_einsum_string(s)
@@ -177,6 +194,9 @@ def run(ck):
             ck.failing_input({"string": s, "kind": lab, "impl": str(got), "expected": str(exp), "why": bad}, what="einsum notation: " + bad)
         exprs.append(f"(match parse_einsum {to_codes(s)} with Some (n, l) => (true, n, map (fun t => (ta_name t, ta_proj t, ta_out t)) l) | None => (false, [], []) end)")
         keys.append((s, got))
+        if exp is not None:
+            E = coq_einsum(*tup)
+            dom.append(f"(let E := {E} in einsum_ok E && str_eqb (strip_ws {to_codes(s)}) (pr_einsum E) && match parse_einsum {to_codes(s)} with Some r => true | None => false end)")
     B = 20
     vals = [v for b in common.run_coq_eval("C23", ["AF.C23.Model"], ["[" + "; ".join(exprs[k:k + B]) + "]" for k in range(0, len(exprs), B)], chunk=10) for v in b]
     mism = []
@@ -186,6 +206,10 @@ def run(ck):
         g = got if not isinstance(got, str) else None
         if mg != g:
             mism.append({"string": s, "impl": str(got), "model": str(mg)})
+    # every generated valid case lies in the domain of C23_roundtrip (hypotheses evaluated inside Coq)
+    dvals = [v for b in common.run_coq_eval("C23", ["AF.C23.Model", "AF.C23.Proofs"], ["[" + "; ".join(dom[k:k + B]) + "]" for k in range(0, len(dom), B)], chunk=10, tag="dom") for v in b]
+    ck.count("valid_cases_in_theorem_domain", sum(1 for v in dvals if v))
+    ck.count("valid_cases_outside_theorem_domain", sum(1 for v in dvals if not v))
     ck.count("model_vs_impl_compared", len(keys))
     ck.count("model_vs_impl_mismatches", len(mism))
     if mism and not ck.violations:
